@@ -24,7 +24,9 @@ func HMacSender() {
 	e := VGenEAP(50, mask, tier)
 	key := vr.Bytes(kl)
 	w0 := vSpecMacInput(e)
-	mac, err := e.CalcEapAkaPrimeAtMAC(append([]byte{}, key...))
+	gk := VGuarded(key)
+	mac, err := e.CalcEapAkaPrimeAtMAC(gk[:kl])
+	vr.Assert("c15.key-untouched", VGuardIntact(gk, key))
 	vr.Assert("c15.sender.noerr", err == nil)
 	if err != nil {
 		return
